@@ -144,12 +144,17 @@ Definition dist_iv (a b v : Z) : Z :=
 
 Definition manhattan_seg (a b : pt) : Prop := px a = px b \/ py a = py b.
 
-(** "within half the width w of segment a b" (DESIGN.md section 4): the projection of q
-    falls on the segment and the perpendicular distance d satisfies d <= w/2, i.e. 2d <= w.
-    For an axis-parallel segment both distances are coordinate differences. *)
+(** "within half the width w of segment a b" (DESIGN.md section 4): q lies on the segment, or the
+    segment has non-zero length, the projection of q falls on it and the perpendicular
+    distance d satisfies d <= w/2, i.e. 2d <= w (for integer d the same as d <= w/2 truncated).
+    For an axis-parallel segment both distances are coordinate differences.
+    A segment of zero length has no direction, hence no perpendicular: only the point itself
+    must be accepted; its surroundings up to Chebyshev distance w/2 are unspecified, like the
+    regions beyond the ends of every other segment (correction of 2026-10-01, DESIGN.md section 9). *)
 Definition near_seg (w : Z) (a b q : pt) : Prop :=
-  (px a = px b /\ Z.min (py a) (py b) <= py q <= Z.max (py a) (py b) /\ 2 * Z.abs (px q - px a) <= w)
-  \/ (py a = py b /\ Z.min (px a) (px b) <= px q <= Z.max (px a) (px b) /\ 2 * Z.abs (py q - py a) <= w).
+  on_seg a b q
+  \/ (px a = px b /\ py a <> py b /\ Z.min (py a) (py b) <= py q <= Z.max (py a) (py b) /\ 2 * Z.abs (px q - px a) <= w)
+  \/ (py a = py b /\ px a <> px b /\ Z.min (px a) (px b) <= px q <= Z.max (px a) (px b) /\ 2 * Z.abs (py q - py a) <= w).
 
 (** Chebyshev distance from q to the closed segment a b (axis-parallel) *)
 Definition cheb_seg (a b q : pt) : Z :=
